@@ -52,6 +52,10 @@ def keep(agent_wt, name, checks, tier, suffix=''):
     try:
         os.makedirs(wt + '/seed')
         shutil.copy(demo, wt + '/seed/demo.py')
+        # helper modules a demonstration imports (anything in the agent's seed/ that is not a patch, a demo or a description)
+        helpers = [f for f in os.listdir(os.path.join(agent_wt, 'seed')) if f.endswith('.py') and not f.startswith('demo_')]
+        for f in helpers:
+            shutil.copy(os.path.join(agent_wt, 'seed', f), wt + '/seed/' + f)
         env = 'cd %s && PYTHONPATH=%s PYTHONWARNINGS=ignore timeout 300 /venv/bin/python seed/demo.py' % (wt, wt)
         d0 = sh(env)
         ap = sh('git -C %s apply %s' % (wt, patch))
@@ -71,6 +75,8 @@ def keep(agent_wt, name, checks, tier, suffix=''):
         if ok:
             os.makedirs(dst, exist_ok=True)
             shutil.copy(patch, dst + '/patch.diff'); shutil.copy(demo, dst + '/demo.py')
+            for f in helpers:
+                shutil.copy(os.path.join(agent_wt, 'seed', f), dst + '/' + f)
             json.dump(rec, open(dst + '/meta.json', 'w'), indent=1)
         slim = dict(rec); slim['confirmed'] = dict(rec['confirmed'], demo_patched_output=rec['confirmed']['demo_patched_output'][-200:])
         if 'checks' in slim:
